@@ -92,6 +92,17 @@ class Engine(ExprMixin, CallMixin, BuiltinMixin, ApplyMixin, StmtMixin, _Base):
         rep["obligations"] = len(self.obligations) - n0
         return rep
 
+    KNOWN_DECORATORS = ("property", "classmethod", "staticmethod", "cached_method", "cached_classmethod", "abstractmethod")
+
+    def decorator_obligation(self, fi: FuncInfo, c, fr: Frame):
+        """The translation does not execute decorators: it reads @property / @classmethod / @staticmethod structurally, @cached_method
+        through the verified contract of its wrapper, and `<name>.setter`.  Any other decorator on a function under contract would be
+        dropped silently (a memoising or wrapping decorator changes what callers get), so its absence is an obligation."""
+        bad = [d for d in fi.decorators if not (d in self.KNOWN_DECORATORS or d.endswith(".setter") or d.endswith(".deleter")
+                                                or d.startswith("wraps(") or d.startswith("functools.wraps("))]
+        self.emit("frame", "extraction.only_known_decorators", [], z3.BoolVal(not bad), fr, fi.lineno,
+                  ("decorator(s) the translation would ignore: " + ", ".join(bad)) if bad else "no decorator beyond the structurally read ones", None)
+
     def param_frame_obligations(self, fi: FuncInfo, c, fr: Frame):
         """Guard of assumption S5 (containers have value semantics): a container passed as an argument must not be mutated in place
         by the callee, because the caller's view of it would change behind the caller's contract.  One obligation per container
@@ -199,6 +210,7 @@ class Engine(ExprMixin, CallMixin, BuiltinMixin, ApplyMixin, StmtMixin, _Base):
         entry = st.copy()
         fr.entry_state = entry
         self.param_frame_obligations(fi, c, fr)
+        self.decorator_obligation(fi, c, fr)
         is_gen = any(isinstance(n, (ast.Yield, ast.YieldFrom)) for n in ast.walk(fi.node))
         outs = self.exec_block(fi.node.body, st, fr)
         outs += fr.pending
